@@ -214,15 +214,17 @@ class ScriptedBackend : public FlatBackend< MIPBackend<ScriptedBackend> > {
   ArrayRef<double> Ray() override {
     g_calls.push_back("{\"op\":\"Ray\"}");
     if (sget("rays", "none") == "none") return {};
-    ray_.assign(nvars(), 1.0); auto mv = GetValuePresolver().PostsolveSolution({ ray_ }); return mv.GetVarValues()();
+    ray_.assign(nvars(), 1.0); auto mv = GetValuePresolver().PostsolveSolution({ ray_ });
+    ray_out_ = std::vector<double>(mv.GetVarValues()().begin(), mv.GetVarValues()().end()); return ray_out_;   // the result must outlive mv
   }
   ArrayRef<double> DRay() override {
     g_calls.push_back("{\"op\":\"DRay\"}");
     if (sget("rays", "none") == "none") return {};
     std::map<int, std::vector<double>> cm; cm[CG_Linear] = std::vector<double>(count_group(CG_Linear), 1.0);
-    pre::ValueMapDbl y{cm}; auto mv = GetValuePresolver().PostsolveSolution({ {}, y }); return mv.GetConValues()();
+    pre::ValueMapDbl y{cm}; auto mv = GetValuePresolver().PostsolveSolution({ {}, y });
+    dray_out_ = std::vector<double>(mv.GetConValues()().begin(), mv.GetConValues()().end()); return dray_out_;
   }
-  std::vector<double> ray_;
+  std::vector<double> ray_, ray_out_, dray_out_;
   // script key iis_code: the IIS run reports a new status (as real drivers do: "infeasible, IIS returned", ...)
   void ComputeIIS() override {
     g_calls.push_back("{\"op\":\"ComputeIIS\"}");
